@@ -148,6 +148,7 @@ def plan(prop, tier):
     elif prop == "C03":
         mc = [("T", 2, "valid", "single")] if q else [("T", 3, "valid", "single")]
         bs = [B("T", 3 if q else 4, configs=cfg_one_method, sample=6000 if q else 60000), B("B", 3, configs=cfg_one_method, sample=1500 if q else None),
+              B("M", 3, configs=cfg_one_method, sample=1500 if q else 20000),      # transfers between all pairs of accounts, self-transfers with a fee included
               B("T", 12, sim=150 if q else 2000, depth=12, configs=cfg_one_method)]
     elif prop == "C04":
         mc = [("V", 2, "valid", "single")] if q else [("V", 3, "valid", "single"), ("B", 3, "valid", "single")]
@@ -219,7 +220,8 @@ def mutate(trace, prop, rnd):
     elif prop == "C03":
         if not takes:
             return None
-        del lines[rnd.choice(takes)]
+        ev = lines[rnd.choice(takes)]["ev"]      # a taxable event disappears from the report (all its fractions)
+        t["lines"] = lines = [ln for ln in lines if not (ln["a"] == "Take" and ln["ev"] == ev)]
     elif prop == "C04":
         if not takes:
             return None
